@@ -25,7 +25,7 @@ ASSUMPTIONS = ['an interrupted cache write leaves the entry missing, empty or a 
 
 def budget(tier):
     if tier == 'quick':
-        return {'shards': 16, 'examples': 25, 'wall': 240}
+        return {'shards': 16, 'examples': 50, 'wall': 240}
     return {'shards': 16, 'examples': 2000, 'wall': 2400}
 
 
